@@ -530,6 +530,46 @@ def values4(rng, tier):
     return out
 
 
+def spelling6(rng, v):
+    """another VALID RFC 4291 spelling of the IPv6 value v - not the printed one: every group with 0-3 leading
+    zeros in either case, optionally the last 32 bits as a dotted quad, optionally '::' for ANY run of one or more
+    zero groups (not necessarily the longest).  Lengths go up to the 45 characters of
+    '0000:0000:0000:0000:0000:ffff:255.255.255.255' (a seeded change capped the accepted length at the 39
+    characters of the longest printed form)."""
+    ws = [(v >> (16 * (7 - i))) & 0xffff for i in range(8)]
+    quad = rng.random() < 0.45
+    ng = 6 if quad else 8
+    style = rng.choice(['pad4', 'pad4', 'mixed', 'min'])
+
+    def grp(x):
+        t = '%x' % x
+        if style == 'pad4':
+            t = t.rjust(4, '0')
+        elif style == 'mixed':
+            t = t.rjust(rng.randrange(len(t), 5), '0')
+        return t.upper() if rng.random() < 0.3 else t
+    groups = [grp(x) for x in ws[:ng]]
+    tail = ['%d.%d.%d.%d' % (ws[6] >> 8, ws[6] & 255, ws[7] >> 8, ws[7] & 255)] if quad else []
+    runs = []
+    i = 0
+    while i < ng:
+        if ws[i] == 0:
+            j = i
+            while j < ng and ws[j] == 0:
+                j += 1
+            for a in range(i, j):
+                for b in range(a + 1, j + 1):
+                    runs.append((a, b))
+            i = j
+        else:
+            i += 1
+    if runs and rng.random() < 0.5:
+        a, b = rng.choice(runs)
+        left, right = groups[:a], groups[b:] + tail
+        return ':'.join(left) + '::' + ':'.join(right)
+    return ':'.join(groups + tail)
+
+
 def edits(rng, s, n):
     s = list(s)
     for _ in range(n):
@@ -719,6 +759,9 @@ def generate(rng, tier):
         cases.append(Case(None, 'rt/%s/6/%s' % (be, d), ('rt', be, 6, v, d, pver, fl)))
         if rng.random() < 0.5:
             strings.append(ref_print(6, v, rng.choice(['compact', 'compact', 'full', 'verbose'])))
+        strings.append(spelling6(rng, v))
+        if rng.random() < 0.4:
+            strings.append(spelling6(rng, v))
         if rng.random() < 0.3:
             be = rng.choice(['pl', 'fb'])
             cases.append(Case('ip_repr %s 6 %d' % (be, v), 'repr/%s/6' % be, ('repr', be, 6, v)))
